@@ -611,8 +611,14 @@ func (sc *c08Scen) finish(out *vfOut, tag string) {
 	// the file
 	var fileItems []string
 	stored := map[string]int{}
-	f, err := os.Open(filepath.Join(sc.dir, "querylog.json"))
-	if err == nil {
+	// querylog.json.1 first: the start-up rotation check of the query log runs
+	// in a goroutine and may rename a file written in the meantime
+	var err error
+	for _, fn := range []string{"querylog.json.1", "querylog.json"} {
+		f, oerr := os.Open(filepath.Join(sc.dir, fn))
+		if oerr != nil {
+			continue
+		}
 		s := bufio.NewScanner(f)
 		s.Buffer(make([]byte, 1<<20), 1<<20)
 		for s.Scan() {
